@@ -8,7 +8,7 @@ Open Scope N_scope.
 
 Ltac pexec := cbv -[validate_headers mem_version te_trailers suppress_body body_bytes headers_ok forallb link_ok
                    TRAILERS_VERSIONS PUSH_VERSIONS EARLY_HINTS_VERSIONS map filter app B
-                   LibH11.send recv next_cycle our_state their_state recv_possible l_waiting_100 h1state_eqb is_idle
+                   LibH11.send recv next_cycle our_state their_state recv_possible event_allowed l_waiting_100 h1state_eqb is_idle
                    new_handshake is_valid valid_server_name partition1 is_ascii pct_decode hk_accept wants_websocket
                    upper lower str_strip fold_left existsb Z.leb Z.add Z.ltb beqb length find_row].
 Ltac pfin := cbv beta iota zeta.
